@@ -6,6 +6,7 @@ import (
 	"go/printer"
 	"go/token"
 	"go/types"
+	"regexp"
 	"sort"
 	"strings"
 
@@ -425,7 +426,7 @@ func checkJSONTags(c *Ctx, rule string, pk *packages.Package) {
 			}
 			// classify loop: does its body `continue` unless fld.Embedded() (embedded loop) or skip when Embedded (plain loop)?
 			text := nodeText(pk, fs.Body)
-			isEmbeddedLoop := strings.Contains(text, "!fld.Embedded()") || strings.Contains(text, "!fld.Anonymous()")
+			isEmbeddedLoop := embeddedOnlyLoop(text)
 			hasExportFilter := false
 			goan.WalkGuards(info, fs.Body, func(m ast.Node, guards []goan.Lit, _ []ast.Stmt) {
 				if br, ok := m.(*ast.BranchStmt); ok && br.Tok == token.CONTINUE {
@@ -437,7 +438,7 @@ func checkJSONTags(c *Ctx, rule string, pk *packages.Package) {
 					}
 					for _, g := range own {
 						if call, ok := ast.Unparen(g.E).(*ast.CallExpr); ok && !g.Pos {
-							if se, ok := call.Fun.(*ast.SelectorExpr); ok && se.Sel.Name == "Exported" && goan.ExprString(se.X) == "fld" && len(own) == 1 {
+							if se, ok := call.Fun.(*ast.SelectorExpr); ok && se.Sel.Name == "Exported" && goan.NamedPath(info.TypeOf(se.X)) == "go/types.Var" && len(own) == 1 {
 								hasExportFilter = true
 							}
 						}
@@ -535,7 +536,7 @@ func checkJSONTags(c *Ctx, rule string, pk *packages.Package) {
 				return true
 			}
 			text := nodeText(pk, fs.Body)
-			isEmbeddedLoop := strings.Contains(text, "!fld.Embedded()") || strings.Contains(text, "!fld.Anonymous()")
+			isEmbeddedLoop := embeddedOnlyLoop(text)
 			if isEmbeddedLoop {
 				// the name returned by parseJSONTag is bound and a `continue` is guarded by <name> != ""
 				var nameObj types.Object
@@ -717,3 +718,10 @@ func checkPackageIdentity(c *Ctx, rule string, pk *packages.Package) {
 		c.Check(strings.Contains(src, want), rule, "codescan › identity test "+want, "", "by import path", "expected identity test by import path not found (anchor)")
 	}
 }
+
+
+var embeddedOnlyRx = regexp.MustCompile(`if !\w+\.(Embedded|Anonymous)\(\) \{`)
+
+// embeddedOnlyLoop: the loop body skips every field that is not embedded (whatever the loop
+// variable is called).
+func embeddedOnlyLoop(bodyText string) bool { return embeddedOnlyRx.MatchString(bodyText) }
